@@ -185,7 +185,7 @@ func init() {
 				"TypedBucket.IterateStringList", "TypedBucket.IterateStringListInDirection/fwd", "TypedBucket.IterateStringListInDirection/rev",
 				"setIndex.OpenValueCursor/fwd", "setIndex.OpenValueCursor/rev", "setIndex.OpenKeyCursor/fwd", "setIndex.OpenKeyCursor/rev",
 				"GetRelatedEntitiesCursor/fwd", "GetRelatedEntitiesCursor/rev", "LinkCollection.IterateLinks", "RefCountedLinkCollection.IterateLinks/fwd", "RefCountedLinkCollection.IterateLinks/rev",
-				"setSymbolRuntime.OpenCursor", "IterateIds", "IterateValidIds", "NewFilteredCursor", "TreeSet.ToCursor/fwd", "TreeSet.ToCursor/rev", "NewUnionSetCursor/fwd", "NewUnionSetCursor/rev",
+				"setSymbolRuntime.OpenCursor", "IterateIds", "IterateValidIds", "IterateIds(extended child store)", "IterateValidIds(extended child store)", "IterateIds(filtered)", "NewFilteredCursor", "TreeSet.ToCursor/fwd", "TreeSet.ToCursor/rev", "NewUnionSetCursor/fwd", "NewUnionSetCursor/rev",
 				"IteratorMatchingAnyOf/1", "IteratorMatchingAnyOf/2/fwd", "IteratorMatchingAnyOf/2/rev", "IteratorMatchingAllOf/1", "IteratorMatchingAllOf/2", "EmptyCursor", "stackedCursor(dotted set)"}}
 		},
 	})
@@ -219,7 +219,8 @@ func runC14(c *core.Ctx, idx int) {
 		Fields: []schema.Field{{Name: "lst", Kind: schema.KList}, {Name: "keys", Kind: schema.KList}, {Name: "items", Kind: schema.KList, FK: "items", Derived: true}, {Name: "ritems", Kind: schema.KList, FK: "items", Derived: true}},
 		SetIdx: []string{"keys"},
 		Links:  []schema.LinkDef{{Field: "items", Target: "items", TargetField: "hubs"}, {Field: "ritems", Target: "items", TargetField: "rhubs", RefCounted: true}}}
-	sc := schema.Build([]*schema.StoreDef{hubs, items})
+	itemsExt := &schema.StoreDef{Type: "items", Parent: "items", ChildPath: []string{"xt"}, Extended: true, Fields: []schema.Field{{Name: "extra", Kind: schema.KStr}}}
+	sc := schema.Build([]*schema.StoreDef{hubs, items, itemsExt})
 	path := c.TempFile("c14")
 	db, err := sc.OpenDb(path)
 	if err != nil {
@@ -260,7 +261,12 @@ func runC14(c *core.Ctx, idx int) {
 				odd = append(odd, s)
 				both = append(both, s)
 			}
-			if err := ist.Store.Create(ctx, &schema.Ent{Id: s, Typ: "items", V: map[string]any{"roles": roles, "tags": []string{"t-" + s, "shared"}}}); err != nil {
+			ent := &schema.Ent{Id: s, Typ: "items", V: map[string]any{"roles": roles, "tags": []string{"t-" + s, "shared"}, "extra": "x"}}
+			target := ist
+			if i%2 == 1 {
+				target = sc.St("items/xt") // created through the extended child store: has child data
+			}
+			if err := target.Store.Create(ctx, ent); err != nil {
 				return err
 			}
 		}
@@ -340,6 +346,12 @@ func runC14(c *core.Ctx, idx int) {
 		}})
 		add(c14Kind{name: "IterateIds", seekable: true, set: ne, open: func() ast.SetCursor { return ist.Store.IterateIds(tx, ast.BoolNodeTrue) }})
 		add(c14Kind{name: "IterateValidIds", seekable: true, set: ne, open: func() ast.SetCursor { return ist.Store.IterateValidIds(tx, ast.BoolNodeTrue) }})
+		xst := sc.St("items/xt")
+		add(c14Kind{name: "IterateIds(extended child store)", seekable: true, set: ne, open: func() ast.SetCursor { return xst.Store.IterateIds(tx, ast.BoolNodeTrue) }})
+		add(c14Kind{name: "IterateValidIds(extended child store)", seekable: true, set: odd, open: func() ast.SetCursor { return xst.Store.IterateValidIds(tx, ast.BoolNodeTrue) }})
+		if fq, err := ast.Parse(ist.Store, `anyOf(roles) = "odd"`); err == nil {
+			add(c14Kind{name: "IterateIds(filtered)", seekable: true, set: odd, open: func() ast.SetCursor { return ist.Store.IterateIds(tx, fq) }})
+		}
 		var filtered []string
 		for _, s := range set {
 			if len(s)%2 == 1 {
